@@ -3,7 +3,13 @@ import Reduino.Lang.Tr
   `InF` — the decidable syntactic fragment on which translation correctness (C01) is proved.  It is also the filter of
   the program generator.  Beyond what `tr` itself enforces (every assigned name is first assigned at top level):
     * expressions are well typed for the coarse inference: `and`/`or` over bool-typed operands (their Python value is
-      then a bool), unary minus over an int-typed operand, conditional expressions with equally typed branches;
+      then a bool), unary minus over an int-typed operand, conditional expressions with equally typed branches,
+      `min`/`max` over int-typed operands (Python returns the operand itself, C++ the common type of both);
+      the binary operators `+ - * & | ^ // %` and `abs` take operands of either type (the inferred type is `int`, the
+      Python value converted to `int` is what C computes; `&`, `|`, `^` of two bools is a Python bool, which `mon.write`
+      then refuses in the model);
+    * `//` and `%` need no side condition here: a zero divisor makes the Python run fail (the theorem's premise), a negative
+      operand makes the strict C run stop with `signedDiv` (the theorem's third outcome);
     * every assignment to a name has the type the name was declared with (first assignment wins);
     * for-range: the loop variable is not assigned anywhere in the program, is distinct from enclosing loop variables,
       is read only inside its own loop; the body assigns no name occurring in the range argument;
@@ -22,6 +28,8 @@ def Expr.vars : Expr → List String
   | .or a b => a.vars ++ b.vars
   | .not a => a.vars
   | .ite c a b => c.vars ++ a.vars ++ b.vars
+  | .abs a => a.vars
+  | .mm _ a b => a.vars ++ b.vars
 
 def Stmt.assigned : Stmt → List String
   | .skip => []
@@ -47,6 +55,8 @@ def Expr.wt (te : C.TyEnv) : Expr → Bool
   | .or a b => a.wt te && b.wt te && inferTy te a == .bool && inferTy te b == .bool
   | .not a => a.wt te
   | .ite c a b => c.wt te && a.wt te && b.wt te && inferTy te a == inferTy te b
+  | .abs a => a.wt te
+  | .mm _ a b => a.wt te && b.wt te && inferTy te a == .int && inferTy te b == .int
 
 /-- statements below the top level; `te` holds the globals declared so far plus the loop variables in scope;
     `allAssigned` are all names assigned anywhere in the program -/
